@@ -34,11 +34,15 @@ ASSUMPTIONS = [
     'FITS byte layout, unit-string formatting/parsing are astropy\'s (trusted); float64 payload is stored bit-exactly',
     'cube and convolved-flux cells, and SED cells stored in erg/cm^2/s, are compared for exact equality; SED cells '
     'stored in mJy, Jy or erg/s pass through SED.read\'s (x*nu)/nu resp. (x/d^2)*d^2 even when unit_flux is the '
-    'stored unit, so they are compared to 1e-15 relative (4 ulp); a mislabelled cell differs by O(1)',
+    'stored unit, so they are compared to 1e-13 relative; a mislabelled cell differs by O(1)',
     'wavelength / frequency arrays are matched to 1e-12 relative (unit-conversion rounding), then cells are keyed '
     'by the matched index',
     'model names shorter than 30 characters',
-    'SED.write without errors raises (documented); such inputs are outside the quantifier and not generated',
+    'uncertainties are optional for cubes (and for get_sed on a cube without them) only: SED.write refuses an SED '
+    'whose errors are not set (ValueError "Errors are not set"); that refusal is what the model predicts '
+    '(C12_sed_no_err_refused) and what the sed_noerr cases expect; convolved fluxes always carry errors',
+    'an SED written without apertures reads back with the stored placeholder aperture [1e-30] cm (model: RT.withAps); '
+    'cubes and convolved fluxes without apertures read back without them',
 ]
 EXHAUSTIVE = {'quick': True, 'thorough': True}   # the discrete product (kind x direction x order x parts x unit x memmap)
 N_RANDOM = {'quick': 300, 'thorough': 6000}
@@ -49,13 +53,15 @@ def _unit(name):
 
 
 def combo_name(c):
+    if c['kind'] == 'sed_noerr':
+        return 'sed_noerr|' + c['direction']
     if c['kind'] == 'sed':
         parts = ['sed', c['direction'], c['order'], 'ap' if c['has_ap'] else 'noap', c['unit']]
     elif c['kind'] == 'cube':
         parts = ['cube', c['direction'], c['order'], 'ap' if c['has_ap'] else 'noap',
                  'unc' if c['has_unc'] else 'nounc', c['unit'], 'memmap' if c['memmap'] else 'nomemmap']
     else:
-        parts = ['conv', 'ap' if c['has_ap'] else 'noap', c['unit']]
+        parts = ['conv', 'ap' if c['has_ap'] else 'noap', c['unit'], 'wav' if c.get('has_wav', True) else 'nowav']
     return '|'.join(parts)
 
 
@@ -71,14 +77,17 @@ def all_combos():
                             out.append(dict(kind='cube', direction=d, order=o, has_ap=ap, has_unc=unc, unit=un, memmap=mm))
     for ap in (True, False):
         for un in UNITS:
-            out.append(dict(kind='conv', direction='asc', order='nu', has_ap=ap, has_unc=True, unit=un, memmap=False))
+            for hw in (True, False):
+                out.append(dict(kind='conv', direction='asc', order='nu', has_ap=ap, has_unc=True, unit=un, memmap=False,
+                                has_wav=hw))
     return out
 
 
 REQUIRED_BRANCHES = sorted({combo_name(c) for c in all_combos()}) + \
     ['write_reverses', 'write_keeps', 'read_reverses', 'read_keeps', 'get_sed', 'get_sed_no_unc', 'single_aperture',
      'multi_aperture', 'single_model', 'multi_model',
-     'history_sed', 'history_cube', 'history_conv', 'history_same_shape', 'history_other_shape']
+     'history_sed', 'history_cube', 'history_conv', 'history_same_shape', 'history_other_shape',
+     'sed_no_err_refused', 'sed_aperture_placeholder', 'cube_valid_flags', 'conv_scalar_columns']
 
 
 def fill(rng, combo, small=False, sizes=None):
@@ -107,6 +116,8 @@ def fill(rng, combo, small=False, sizes=None):
     c['val'] = [[[nice(rng, 1e-4, 1e4, 6) for _ in range(nw)] for _ in range(nap)] for _ in range(nm)]
     c['unc'] = [[[nice(rng, 1e-6, 1e2, 6) for _ in range(nw)] for _ in range(nap)] for _ in range(nm)]
     c['distance_kpc'] = nice(rng, 0.1, 10., 3)
+    # validity flags of a cube (None = not set: the cube then reports all models valid)
+    c['valid'] = [rng.randrange(2) for _ in range(nm)] if (c['kind'] == 'cube' and rng.random() < 0.5) else None
     return c
 
 
@@ -159,6 +170,14 @@ def gen_cases(seed, tier):
         if n % 3 == 0:
             rng = case_rng(seed, PID, i); i += 1
             yield gen_history(rng, combo, 4, True)
+    # SEDs without errors: SED.write refuses
+    for direction in ('asc', 'desc'):
+        for ap in (True, False):
+            rng = case_rng(seed, PID, i); i += 1
+            c = fill(rng, dict(kind='sed', direction=direction, order='nu', has_ap=ap, has_unc=False, unit='mJy',
+                               memmap=False), small=True)
+            c['kind'] = 'sed_noerr'
+            yield c
     combos = all_combos()
     for _ in range(N_RANDOM[tier]):
         rng = case_rng(seed, PID, i)
@@ -192,7 +211,7 @@ def _eq(a, b, exact):
         return False
     if exact:
         return bool(np.array_equal(a, b))
-    return bool(np.all(np.abs(a - b) <= 1e-15 * np.abs(b)))
+    return bool(np.all(np.abs(a - b) <= 1e-13 * np.abs(b)))
 
 
 def _first_bad(a, b, exact):
@@ -200,7 +219,7 @@ def _first_bad(a, b, exact):
     b = np.asarray(b, float)
     if a.shape != b.shape:
         return 'shape %r vs %r' % (a.shape, b.shape)
-    bad = np.argwhere(~(a == b)) if exact else np.argwhere(~(np.abs(a - b) <= 1e-15 * np.abs(b)))
+    bad = np.argwhere(~(a == b)) if exact else np.argwhere(~(np.abs(a - b) <= 1e-13 * np.abs(b)))
     if len(bad) == 0:
         return ''
     i = tuple(int(x) for x in bad[0])
@@ -289,6 +308,8 @@ def check_sed(c, d, branches, with_model=True):
         if c['has_ap']:
             if r.apertures is None or not np.allclose(r.apertures.to(u.au).value, c['aps'], rtol=1e-12, atol=0):
                 prop.append('model %s: apertures read back %r != %r' % (name, r.apertures, c['aps']))
+        if r.distance is None or abs(r.distance.to(u.kpc).value - c['distance_kpc']) > 1e-12 * c['distance_kpc']:
+            prop.append('model %s: distance read back %r, stored %r kpc' % (name, r.distance, c['distance_kpc']))
         # ---- other order = joint reversal of all four arrays
         ok_rev = (np.array_equal(np.asarray(r2.wav.value), np.asarray(r.wav.value)[::-1]) and
                   np.array_equal(np.asarray(r2.nu.value), np.asarray(r.nu.value)[::-1]) and
@@ -314,7 +335,16 @@ def check_sed(c, d, branches, with_model=True):
             continue
         mw = [float(x) for x in t.rats()]
         mn = [float(x) for x in t.rats()]
-        t.rats()
+        maps = [float(x) for x in t.rats()]
+        # apertures as the model predicts them: the given list, or the stored placeholder [1e-30] cm when there is none
+        if c['has_ap']:
+            ok_ap = r.apertures is not None and np.allclose(r.apertures.to(u.au).value, maps, rtol=1e-12, atol=0)
+        else:
+            ok_ap = (r.apertures is not None and r.apertures.unit == u.cm and
+                     np.allclose(np.asarray(r.apertures.value, float), maps, rtol=1e-12, atol=0) and maps == [1e-30])
+            branches.add('sed_aperture_placeholder')
+        if not ok_ap:
+            mod.append('model %s: apertures read back %r, model predicts %r' % (name, r.apertures, maps))
         mf = np.array([[int(x) for x in row] for row in _read_rows(t)], int).reshape(nap, nw)
         me = np.array([[int(x) - nap * nw for x in row] for row in _read_rows(t)], int).reshape(nap, nw)
         flat_f = flux.reshape(-1)
@@ -339,6 +369,9 @@ def check_cube(c, d, branches, with_model=True):
     prop, mod = [], []
     other = 'wav' if c['order'] == 'nu' else 'nu'
     cube = pk.make_cube(c['names'], wav, val, unc, apertures_au=c['aps'], distance_kpc=c['distance_kpc'], unit=unit)
+    if c.get('valid') is not None:
+        cube.valid = np.array(c['valid'], dtype=int)
+        branches.add('cube_valid_flags')
     fn = os.path.join(d, 'cube.fits')
     try:
         with common.quiet():
@@ -358,6 +391,11 @@ def check_cube(c, d, branches, with_model=True):
         return ['cube: wavelengths read back %r are not the stored ones %r' % (rw.tolist(), wav.tolist())], []
     if [str(n) for n in r.names] != list(c['names']):
         prop.append('cube: names read back %r != %r' % (list(r.names), c['names']))
+    want_valid = [bool(x) for x in c['valid']] if c.get('valid') is not None else [True] * nm
+    if [bool(x) for x in np.asarray(r.valid)] != want_valid:
+        prop.append('cube: valid flags read back %r, stored %r' % (np.asarray(r.valid).tolist(), want_valid))
+    if r.distance is None or abs(r.distance.to(u.kpc).value - c['distance_kpc']) > 1e-12 * c['distance_kpc']:
+        prop.append('cube: distance read back %r, stored %r kpc' % (r.distance, c['distance_kpc']))
     if rv.shape != val.shape:
         return ['cube: val shape %r, expected %r' % (rv.shape, val.shape)], []
     if not _eq(rv, val[:, :, idx], True):
@@ -486,7 +524,9 @@ def check_conv(c, d, branches, with_model=True):
         cf.model_names = np.array(c['names'])
         if c['has_ap']:
             cf.apertures = np.array(c['aps'], float) * u.au
-        cf.central_wavelength = c['wav'][k] * u.micron
+        has_wav = c.get('has_wav', True)
+        if has_wav:
+            cf.central_wavelength = c['wav'][k] * u.micron
         cf.flux = val[:, :, k] * unit
         cf.error = unc[:, :, k] * unit
         fn = os.path.join(d, 'conv_%d.fits' % k)
@@ -506,8 +546,11 @@ def check_conv(c, d, branches, with_model=True):
         names = [str(n).strip() for n in r.model_names]
         if names != list(c['names']):
             prop.append('conv: names read back %r != %r' % (names, c['names']))
-        if r.central_wavelength is None or abs(r.central_wavelength.to(u.micron).value - c['wav'][k]) > 1e-12 * c['wav'][k]:
-            prop.append('conv: central wavelength %r != %r' % (r.central_wavelength, c['wav'][k]))
+        if has_wav:
+            if r.central_wavelength is None or abs(r.central_wavelength.to(u.micron).value - c['wav'][k]) > 1e-12 * c['wav'][k]:
+                prop.append('conv: central wavelength %r != %r' % (r.central_wavelength, c['wav'][k]))
+        elif r.central_wavelength is not None:
+            prop.append('conv: no central wavelength stored but read back %r' % (r.central_wavelength,))
         if not _eq(rf, val[:, :, k], True):
             prop.append('conv unit=%s: flux by (model, aperture): %s' % (c['unit'], _first_bad(rf, val[:, :, k], True)))
         if not _eq(re_, unc[:, :, k], True):
@@ -522,7 +565,7 @@ def check_conv(c, d, branches, with_model=True):
         # model
         fid = _ids((nm, nap))
         eid = _ids((nm, nap), offset=nm * nap)
-        line = ['convrt', '1', rat(c['wav'][k]), ' '.join([str(nm)] + list(c['names'])),
+        line = ['convrt', '1' if has_wav else '0', rat(c['wav'][k]), ' '.join([str(nm)] + list(c['names'])),
                 '1' if c['has_ap'] else '0', rats(c['aps'] or []), _rows(fid.tolist()), _rows(eid.tolist())]
         t = common.driver().ask(' '.join(line))
         if t.tok() != 'read':
@@ -533,10 +576,106 @@ def check_conv(c, d, branches, with_model=True):
         m_has_ap = t.nat(); t.rats()
         mf = np.array(_read_rows(t), dtype=object).astype(int).reshape(nm, nap)
         me = np.array(_read_rows(t), dtype=object).astype(int).reshape(nm, nap) - nm * nap
-        if mnames != names or bool(m_has_ap) != (r.apertures is not None) or not m_has_w:
+        if mnames != names or bool(m_has_ap) != (r.apertures is not None) or bool(m_has_w) != (r.central_wavelength is not None):
             mod.append('conv: names / optional parts differ from the model')
         if not (_eq(rf, val[:, :, k].reshape(-1)[mf], True) and _eq(re_, unc[:, :, k].reshape(-1)[me], True)):
             mod.append('conv: cell positions differ from the model')
+        # ---- a file with scalar (1-D) flux columns, as other tools / older versions write them for one aperture:
+        #      ConvolvedFluxes.read reshapes to (n, 1); compared with the model's `convread1d`
+        if nap == 1 and k == 0:
+            m2 = check_conv_scalar(c, d, unit, val[:, 0, k], unc[:, 0, k], has_wav, with_model)
+            mod += m2
+            branches.add('conv_scalar_columns')
+    return prop, mod
+
+
+def check_conv_scalar(c, d, unit, fcol, ecol, has_wav, with_model):
+    from astropy.io import fits
+    from astropy.table import Table
+    from sedfitter.convolved_fluxes import ConvolvedFluxes
+    nm = len(fcol)
+    t = Table()
+    t['MODEL_NAME'] = np.array(c['names'], dtype='S30')
+    t['TOTAL_FLUX'] = np.asarray(fcol, float)
+    t['TOTAL_FLUX_ERR'] = np.asarray(ecol, float)
+    hdu0 = fits.PrimaryHDU()
+    if has_wav:
+        hdu0.header['FILTWAV'] = c['wav'][0]
+    hdu1 = fits.BinTableHDU(np.array(t), name='CONVOLVED FLUXES')
+    hdu1.columns[1].unit = unit.to_string(format='fits')
+    hdu1.columns[2].unit = unit.to_string(format='fits')
+    hdus = [hdu0, hdu1]
+    if c['has_ap']:
+        ta = Table()
+        ta['APERTURE'] = np.array(c['aps'], float)
+        hdu2 = fits.BinTableHDU(np.array(ta), name='APERTURES')
+        hdu2.columns[0].unit = 'AU'
+        hdus.append(hdu2)
+    fn = os.path.join(d, 'conv_scalar.fits')
+    fits.HDUList(hdus).writeto(fn, overwrite=True)
+    out = []
+    try:
+        with common.quiet():
+            r = ConvolvedFluxes.read(fn)
+        got = ('read', np.asarray(r.flux.value, float), np.asarray(r.error.value, float),
+               r.central_wavelength is not None, r.apertures is not None)
+    except Exception as e:
+        got = ('raise', '%s: %s' % (type(e).__name__, e))
+    if not with_model:
+        return out
+    line = ['convread1d', '1' if has_wav else '0', rat(c['wav'][0]), ' '.join([str(nm)] + list(c['names'])),
+            '1' if c['has_ap'] else '0', rats(c['aps'] or []), rats(range(nm)), rats(range(nm, 2 * nm))]
+    tk = common.driver().ask(' '.join(line))
+    if tk.tok() != 'read':
+        if got[0] != 'raise':
+            out.append('scalar-column conv file: model refuses, implementation read it')
+        return out
+    if got[0] == 'raise':
+        return ['scalar-column conv file: implementation raised %s, model reads it' % got[1]]
+    m_has_w = tk.nat(); tk.rat()
+    for _ in range(tk.nat()):
+        tk.tok()
+    m_has_ap = tk.nat(); tk.rats()
+    mf = np.array(_read_rows(tk), dtype=object).astype(int)
+    me = np.array(_read_rows(tk), dtype=object).astype(int) - nm
+    fcol = np.asarray(fcol, float)
+    ecol = np.asarray(ecol, float)
+    if (got[1].shape != mf.shape or not np.array_equal(got[1], fcol[mf]) or not np.array_equal(got[2], ecol[me]) or
+            bool(m_has_w) != got[3] or bool(m_has_ap) != got[4]):
+        out.append('scalar-column conv file: read %r (shape %r), model %r' % (got[1].tolist(), got[1].shape, fcol[mf].tolist()))
+    return out
+
+
+def check_sed_noerr(c, d, branches, with_model=True):
+    """an SED whose errors are not set: SED.write refuses (ValueError); uncertainties are optional for cubes only"""
+    from sedfitter.sed import SED
+    unit = _unit(c['unit'])
+    wav = np.array(c['wav'], float)
+    prop, mod = [], []
+    flux = np.array(c['val'][0], float)
+    s = pk.make_sed(c['names'][0], wav, flux, np.array(c['unc'][0], float), apertures_au=c['aps'],
+                    distance_kpc=c['distance_kpc'], unit=unit)
+    s.error = None
+    fn = os.path.join(d, 'sed_noerr.fits')
+    try:
+        with common.quiet():
+            s.write(fn, overwrite=True)
+        outcome = 'written'
+    except ValueError as e:
+        outcome = 'refused'
+    except Exception as e:
+        outcome = 'raised %s: %s' % (type(e).__name__, e)
+    branches.add('sed_no_err_refused')
+    expected = 'refused'
+    if with_model:
+        nap, nw = flux.shape
+        nu_in = np.asarray(s.nu.to(u.Hz).value, float)
+        line = ['sedrt', c['order'], rats(wav), rats(nu_in), '1' if c['has_ap'] else '0', rats(c['aps'] or []),
+                _rows(_ids((nap, nw)).tolist()), '0', '0']
+        t = common.driver().ask(' '.join(line))
+        expected = 'refused' if t.tok() == 'raise-write' else 'written'
+    if outcome != expected:
+        mod.append('SED without errors: SED.write %s, model: %s' % (outcome, expected))
     return prop, mod
 
 
@@ -554,7 +693,8 @@ def check_history(c, d, branches, with_model=True):
     return prop, mod
 
 
-CHECKS = {'sed': check_sed, 'cube': check_cube, 'conv': check_conv, 'history': check_history}
+CHECKS = {'sed': check_sed, 'cube': check_cube, 'conv': check_conv, 'history': check_history,
+          'sed_noerr': check_sed_noerr}
 
 
 def evaluate(case, with_model=True):
